@@ -746,6 +746,12 @@ func GenProgramOpt(g *Tape, size int, allowMut bool) *ProgSpec {
 			sp.Blocks = []string{"b1"}
 		}
 	}
+	if g.Draw(10) == 0 {
+		// an optional partial (named at run time, if_exists) that is there - but one of its own
+		// dependencies is not: the execution fails, if_exists forgives a missing partial only
+		sp.Files["inc1.tpl"] += `<dep{{ y() }}:{% include lzmissing %}>`
+		mb.WriteString(`[opt:{% include lz1 if_exists %}]`)
+	}
 	sp.Files["main.tpl"] = mb.String()
 	if g.Draw(8) == 0 {
 		// a template file of more than 40 KiB whose bulk is a comment (sizes of sources, not of
